@@ -106,6 +106,16 @@ type Unit struct {
 	panicSnaps []*State
 	panicSites []string
 	usesErrIs bool
+	functional bool
+}
+
+// nonFunctional records a violation of the `functional` flag on the current path.
+func (u *Unit) nonFunctional(st *State, why string) {
+	if !u.functional || u.quiet > 0 {
+		return
+	}
+	u.oblige(st, "functional", "functional", "result depends only on the arguments (no state access, deterministic callees)", "false", false)
+	st.trace = append(st.trace, "not functional: "+why)
 }
 
 const maxPaths = 6000
@@ -330,6 +340,9 @@ func (u *Unit) scalar(st *State, v *Val) string {
 		if v.S != "" {
 			return v.S
 		}
+		if id, ok := u.valueBox(st, v); ok {
+			return id
+		}
 		id := u.d.fresh("box", SInt)
 		s := structOf(v.T)
 		for i := 0; i < s.NumFields(); i++ {
@@ -369,7 +382,29 @@ func (u *Unit) scalar(st *State, v *Val) string {
 	return v.S
 }
 
+// valueBox: the datatype constructor term of a value struct (see valueStructs).
+func (u *Unit) valueBox(st *State, v *Val) (string, bool) {
+	if !isValueStruct(v.T) {
+		return "", false
+	}
+	s := structOf(v.T)
+	var args []string
+	for i := 0; i < s.NumFields(); i++ {
+		f := s.Field(i)
+		fv := v.Fields[f.Name()]
+		if fv == nil {
+			fv = u.zeroVal(st, f.Type())
+		}
+		args = append(args, u.scalar(st, fv))
+	}
+	u.trusted["model: struct types used as map keys are values determined by their fields (SMT datatypes)"] = true
+	return app(vsCtor(v.T), args...), true
+}
+
 func (u *Unit) accessor(t types.Type, field string, ft types.Type) string {
+	if isValueStruct(t) {
+		return vsSel(t, field)
+	}
 	return u.d.fun("F!"+typeKey(t)+"."+field, []string{SInt}, sortOf(ft))
 }
 func (u *Unit) slArr(es string) string {
@@ -451,6 +486,9 @@ func (u *Unit) heapDefault(st *State, name, valSort string) string {
 }
 
 func (u *Unit) heapGet(st *State, name, valSort string) string {
+	if u.functional {
+		u.nonFunctional(st, "accesses "+name)
+	}
 	if t, ok := st.heap[name]; ok {
 		return t
 	}
